@@ -364,3 +364,7 @@ mod test {
         );
     }
 }
+
+#[cfg(kani)]
+#[path = "/verif/harness/link_parser.rs"]
+mod verif_harness;
